@@ -152,6 +152,12 @@ def run(repo, res, tier):
     c03.structure_rules(repo, res)
     c03.minonce(repo, res)
     sk_bash.fb_rule(repo, res, tier)
+    # one text may stand under several literal ids (one per description): a typed word has one reading only if the scan over the ids
+    # ends by taking a transition, never on the first id whose text matches (SK-WALK W5, shared with C01); and the i-th operand of a
+    # `||` is level i whatever encloses it (FF index clause, shared with C02)
+    sk_bash.walk_rule(repo, res, tier, only="W5:")
+    from . import c02 as _c02i
+    _c02i.fallback_index(repo, res)
     # `a || b || c` is one group with levels 0, 1, 2 only if the parser collects the operands of one `||` chain side by side (PREC, shared with C02)
     from . import c02 as _c02
     _c02.prec_rule(repo, res)
